@@ -248,6 +248,7 @@ def run(ctx):
     p1dofs.p1_dof_decisions(ctx)
     idxspace.index_spaces(ctx)
     misc_guards.dof_counts(ctx)
+    misc_guards.inverse_dof_map(ctx)
     bcsupport.bc_support(ctx)
     from . import c10
 
